@@ -251,12 +251,16 @@ func (s *Segment) DocsMatchingTerms(terms []segment.Term) (*roaring.Bitmap, erro
 		var dict *Dictionary
 		for i, term := range terms {
 			thisField := term.Field()
-			if thisField != lastField {
+			if thisField != lastField || dict == nil {
 				dict, err = s.dictionary(term.Field())
 				if err != nil {
 					return nil, err
 				}
 				lastField = thisField
+			}
+			if dict == nil {
+				// this segment does not have the field, nothing can match
+				continue
 			}
 			term := terms[i]
 			postingsList := emptyPostingsList
